@@ -175,20 +175,30 @@ pub fn layout_oracles(key: Option<usize>, lay: &Layout, built: &Built, real_debu
             bad("C10", format!("max_threads() = {} but the widest stage has {} groups", mt, width));
         }
     }
-    // --- C20: printed plan
+    // --- C20: printed plan, under the plain `{:?}` and under other format specs (a builder that is
+    // a field of a `#[derive(Debug)]` struct inherits the caller's `#`, precision and width)
+    let want: Vec<Vec<Vec<String>>> = lay
+        .stages
+        .iter()
+        .map(|st| st.iter().map(|g| g.iter().map(|t| if info(t).name.is_empty() { format!("unnamed_system_{}", info(t).id) } else { sanitise(&info(t).name) }).collect()).collect())
+        .collect();
+    let mut texts: Vec<(String, &Result<String, String>)> = vec![];
     if let Some(dbg) = real_debug {
+        texts.push(("{:?}".to_string(), dbg));
+        if let Some(more) = built.real_debug_specs.get(&key) {
+            for (spec, t) in more {
+                texts.push((spec.clone(), t));
+            }
+        }
+    }
+    for (spec, dbg) in texts {
         match dbg {
-            Err(m) => bad("C20", format!("formatting the builder panicked: {}", m)),
+            Err(m) => bad("C20", format!("formatting the builder with {} panicked: {}", spec, m)),
             Ok(text) => match parse_par_seq(text) {
-                Err(e) => bad("C20", format!("printed plan does not parse: {}", e)),
+                Err(e) => bad("C20", format!("plan printed with {} does not parse: {}", spec, e)),
                 Ok(p) => {
-                    let want: Vec<Vec<Vec<String>>> = lay
-                        .stages
-                        .iter()
-                        .map(|st| st.iter().map(|g| g.iter().map(|t| if info(t).name.is_empty() { format!("unnamed_system_{}", info(t).id) } else { sanitise(&info(t).name) }).collect()).collect())
-                        .collect();
                     if p != want {
-                        bad("C20", format!("printed plan {:?} differs from the executed plan {:?}", p, want));
+                        bad("C20", format!("plan printed with {} {:?} differs from the executed plan {:?}", spec, p, want));
                     }
                 }
             },
